@@ -13,6 +13,23 @@ const HooksEnabled = true
 func init() {
 	hook := func(point string) {
 		if sc := getActiveSched(); sc != nil {
+			if len(point) > 5 && point[:5] == "auto:" {
+				// statement-level points inserted by cmd/instrument: each run
+				// honours a pseudo-random subset of the sites (density and
+				// salt come from the plan)
+				d, salt := getAuto()
+				if d == 0 {
+					return
+				}
+				x := uint32(2166136261) ^ salt
+				for i := 0; i < len(point); i++ {
+					x ^= uint32(point[i])
+					x *= 16777619
+				}
+				if x%d != 0 {
+					return
+				}
+			}
 			if len(point) > 3 && point[:3] == "in:" && !getInnerYields() {
 				return // pre-emption inside critical sections is a per-run knob
 			}
